@@ -1,4 +1,4 @@
 SPECIFICATION Spec
-CONSTANTS Variant = "no_prior_term" MaxLives = 1
+CONSTANTS Variant = "no_prior_term" MaxLives = 1 Rich = FALSE
 INVARIANTS InvBounds InvDenominator InvSchedule InvResume InvAscentDirection InvFixedPoint InvObject
 CHECK_DEADLOCK FALSE
